@@ -397,6 +397,6 @@ def explore(rng, st):
         for n in range(1, n_writes + 1):
             for applied in (0, 1):
                 cmds = list(case["cmds"])
-                cmds[i] = dict(cmds[i], fw=[n, applied], _last=n_writes)
+                cmds[i] = dict(cmds[i], fw=[n, applied, "EKO"[(n + applied) % 3]], _last=n_writes)
                 execute({"prop": ID, "cfg": case["cfg"], "cmds": cmds}, st)
     st.nontrivial = nontrivial
